@@ -823,6 +823,70 @@ impl<R: Read> Deserializer<R> {
 //@@ end
 }
 
+// ================================================================ the descriptor of a described value (de.rs parse_described_identifier)
+/// what the visitor is given (visit_u64 / visit_str are outside this unit: a visitor either fails or returns a value that remembers what it was given)
+pub enum Ident { Code(u64), Name(Seq<char>) }
+pub uninterp spec fn given(v: VisitValue) -> Ident;
+#[verifier::external_body]
+pub fn visit_u64(visitor: VisitorS, x: u64) -> (r: Result<VisitValue, Error>) ensures r is Ok ==> given(r->Ok_0) == Ident::Code(x) { unimplemented!() }
+#[verifier::external_body]
+pub fn visit_str(visitor: VisitorS, x: &str) -> (r: Result<VisitValue, Error>) ensures r is Ok ==> given(r->Ok_0) == Ident::Name(x@) { unimplemented!() }
+#[verifier::external_body]
+pub struct Utf8Error { _p: u8 }
+impl ErrInto<Error> for Utf8Error { open spec fn conv(self) -> Error { Error::Other } fn err_into(self) -> (r: Error) { Error::Other } }
+/// core::str::from_utf8
+#[verifier::external_body]
+pub fn str_from_utf8<'a>(b: &'a [u8]) -> (r: Result<&'a str, Utf8Error>)
+    ensures r is Ok ==> utf8(r->Ok_0@) == b@,
+{ unimplemented!() }
+pub open spec fn sp_be64(b: Seq<u8>) -> u64 {
+    ((b[0] as u64) << 56 | (b[1] as u64) << 48 | (b[2] as u64) << 40 | (b[3] as u64) << 32 | (b[4] as u64) << 24 | (b[5] as u64) << 16 | (b[6] as u64) << 8 | (b[7] as u64)) as u64
+}
+#[verifier::external_body]
+pub fn from_be64(b: [u8; 8]) -> (r: u64) ensures r == sp_be64(b@) { u64::from_be_bytes(b) }
+/// AMQP 1.0 part 1, 1.2 / 1.6: after the 0x00 marker the descriptor is a ulong (ulong0 0x44, smallulong 0x53 + 1 octet, ulong 0x80 + 8 octets big-endian)
+/// or a symbol (sym8 0xa3 + size + octets, sym32 0xb3 + 4-octet size + octets)
+pub open spec fn descriptor_at(u: Seq<u8>, d: Ident) -> bool {
+    u.len() >= 2 && (
+        (u[1] == 0x44 && d == Ident::Code(0))
+        || (u[1] == 0x53 && u.len() >= 3 && d == Ident::Code(u[2] as u64))
+        || (u[1] == 0x80 && u.len() >= 10 && d == Ident::Code(sp_be64(u.subrange(2, 10))))
+        || (u[1] == 0xa3 && u.len() >= 3 && u.len() >= 3 + u[2] && d is Name && utf8(d->Name_0) == u.subrange(3, 3 + u[2] as int))
+        || (u[1] == 0xb3 && u.len() >= 6 && u.len() >= 6 + sp_be32(u.subrange(2, 6)) && d is Name && utf8(d->Name_0) == u.subrange(6, 6 + sp_be32(u.subrange(2, 6)) as int))
+    )
+}
+impl<R: Read> Deserializer<R> {
+//@@ fn file=serde_amqp/src/de.rs impl=`impl<'de, R: Read<'de>> Deserializer<R>` name=parse_described_identifier
+//@@ qmark
+//@@ generics
+//@@ nowhere
+//@@ param visitor : VisitorS
+//@@ ret Result<VisitValue, Error>
+//@@ subst `|| Error::unexpected_eof("parse_described_identifier")` => `|| -> (o: Error) { Error::unexpected_eof("parse_described_identifier") }` rule=R18
+//@@ subst `|| Error::unexpected_eof("")` => `|| -> (o: Error) { Error::unexpected_eof("") }` rule=R18
+//@@ subst `code.try_into()` => `EncodingCodes::try_from_u8(code)` rule=R16
+//@@ subst `std::str::from_utf8(` => `str_from_utf8(` rule=R9
+//@@ subst `u32::from_be_bytes(` => `from_be32(` rule=R9
+//@@ subst `u64::from_be_bytes(` => `from_be64(` rule=R9
+//@@ subst `visitor.visit_str(slice)` => `visit_str(visitor, slice)` rule=R9
+//@@ subst `visitor.visit_u64(0)` => `visit_u64(visitor, 0)` rule=R9
+//@@ subst `visitor.visit_u64(value as u64)` => `visit_u64(visitor, value as u64)` rule=R9
+//@@ subst `visitor.visit_u64(value)` => `visit_u64(visitor, value)` rule=R9
+//@@ at `visit_u64(visitor, value)` before
+                proof { assert(bytes@ =~= old(self).reader.unread().subrange(2, 10)); }
+//@@ at `visit_str(visitor, slice)` before nth=0
+                proof { assert(utf8(slice@) =~= old(self).reader.unread().subrange(3, 3 + size as int)); }
+//@@ at `visit_str(visitor, slice)` before nth=1
+                proof { assert(size_bytes@ =~= old(self).reader.unread().subrange(2, 6)); assert(utf8(slice@) =~= old(self).reader.unread().subrange(6, 6 + size as int)); }
+//@@ spec
+    requires bounded(old(self).reader),
+    ensures
+        final(self).reader.wf(), final(self).elem_format_code == old(self).elem_format_code,
+        r is Ok ==> descriptor_at(old(self).reader.unread(), given(r->Ok_0)),                                 // [C05.descriptor.decoding] the descriptor handed to the type dispatcher is the ulong (any of its three widths) or symbol (either width) that follows the 0x00 marker
+        r is Ok ==> final(self).reader.unread() =~= old(self).reader.unread() && final(self).reader.consumed() == old(self).reader.consumed(),   // [C20.reader.peek-does-not-consume] identifying the type only peeks: the value is still entirely unread
+//@@ end
+}
+
 // ================================================================ round trip of the variable-width primitives: unit SERSTR's postcondition feeds this unit's
 pub proof fn lemma_be32_inverse(x: u32)
     ensures sp_be32(be32(x)) == x, be32(x).len() == 4,
